@@ -1,4 +1,5 @@
 import CoupeModel.Model.MultiJagged
+import CoupeModel.Proofs.MultiJaggedArith
 
 /-!
 # Lemmas about the MultiJagged model (`Model/MultiJagged.lean`)
@@ -482,6 +483,83 @@ theorem segs_length {α} : ∀ (ps : List Nat) (rest : List α) (drained : Nat),
   | nil => intro rest drained; simp [segs]
   | cons p ps ih => intro rest drained; simp [segs, ih]
 
+theorem segs_map {α β} (f : α → β) : ∀ (ps : List Nat) (rest : List α) (drained : Nat),
+    (segs rest drained ps).map (List.map f) = segs (rest.map f) drained ps := by
+  intro ps
+  induction ps with
+  | nil => intro rest drained; simp [segs]
+  | cons p ps ih => intro rest drained; simp [segs, ih, List.map_take, List.map_drop]
+
+theorem pre_add_drop_sum (sw : List Nat) (d : Nat) : pre sw d + (sw.drop d).sum = sw.sum := by
+  rw [pre, ← List.sum_append, List.take_append_drop]
+
+/-- One level of the balance bound (`split_level_balance`): every slab's weight differs
+from its share `total * m / den` by less than `wmax`, cross-multiplied.  `acc`/`drained`
+generalise over the slabs already cut off. -/
+theorem level_balance (sw : List Nat) (den wmax : Nat) (hw : ∀ w ∈ sw, w ≤ wmax)
+    (hB : 0 < wmax * den) :
+    ∀ (ms : List Nat) (acc drained : Nat), ms ≠ [] → acc + ms.sum = den → drained ≤ sw.length →
+      pre sw drained * den ≤ sw.sum * acc → sw.sum * acc < pre sw drained * den + wmax * den →
+      All₂ (fun m seg => seg.sum * den < sw.sum * m + wmax * den ∧ sw.sum * m < seg.sum * den + wmax * den)
+        ms (segs (sw.drop drained) drained
+          ((cumul ms.dropLast acc).map (fun A => specIdx sw.sum den A sw))) := by
+  intro ms
+  induction ms with
+  | nil => intro _ _ h; exact absurd rfl h
+  | cons m ms ih =>
+    intro acc d _ hsum hd hlo hhi
+    have hps := pre_add_drop_sum sw d
+    cases ms with
+    | nil =>
+      simp only [List.dropLast_singleton, cumul, List.map_nil, segs]
+      refine .cons ?_ .nil
+      simp only [List.sum_cons, List.sum_nil, Nat.add_zero] at hsum
+      have e1 : sw.sum * den = sw.sum * acc + sw.sum * m := by rw [← hsum, Nat.mul_add]
+      have e2 : sw.sum * den = pre sw d * den + (sw.drop d).sum * den := by rw [← hps, Nat.add_mul]
+      omega
+    | cons m' ms' =>
+      simp only [List.dropLast_cons_cons, cumul, List.map_cons, segs]
+      generalize hp : specIdx sw.sum den (acc + m) sw = p
+      obtain ⟨s1, s2, s3⟩ := specIdx_spec sw.sum den (acc + m) sw
+      rw [hp] at s1 s2 s3
+      have hA : sw.sum * (acc + m) = sw.sum * acc + sw.sum * m := Nat.mul_add _ _ _
+      have hAle : sw.sum * (acc + m) ≤ sw.sum * den := by
+        apply Nat.mul_le_mul_left
+        simp only [List.sum_cons] at hsum; omega
+      -- lower bound of the specification
+      have hlo' : pre sw p * den ≤ sw.sum * (acc + m) := by
+        cases p with
+        | zero => simp [pre]
+        | succ t => exact s2 t (by omega)
+      -- upper bound
+      have hhi' : sw.sum * (acc + m) < pre sw p * den + wmax * den := by
+        by_cases hlt : p < sw.length
+        · have h1 := s3 hlt
+          have h2 : pre sw (p + 1) * den ≤ (pre sw p + wmax) * den :=
+            Nat.mul_le_mul_right _ (pre_succ_le sw wmax hw p)
+          rw [Nat.add_mul] at h2
+          omega
+        · have : p = sw.length := by omega
+          rw [this, pre_length]
+          omega
+      -- the cut is not before the previous one
+      have hdp : d ≤ p := by
+        refine Nat.le_of_not_lt fun hlt => ?_
+        have h1 := s3 (by omega)
+        have h2 : pre sw (p + 1) * den ≤ pre sw d * den :=
+          Nat.mul_le_mul_right _ (pre_mono sw (by omega))
+        omega
+      have hseg : ((sw.drop d).take (p - d)).sum * den = pre sw p * den - pre sw d * den := by
+        have := pre_add sw d (p - d)
+        rw [show d + (p - d) = p by omega] at this
+        rw [this, Nat.add_mul]; omega
+      have hmono : pre sw d * den ≤ pre sw p * den := Nat.mul_le_mul_right _ (pre_mono sw hdp)
+      refine .cons ⟨by omega, by omega⟩ ?_
+      have hdrop : (sw.drop d).drop (p - d) = sw.drop p := by
+        rw [List.drop_drop]; congr 1; omega
+      rw [hdrop]
+      exact ih (acc + m) p (by simp) (by simp only [List.sum_cons] at hsum ⊢; omega) s1 hlo' hhi'
+
 /-! ## The recursion -/
 
 theorem Scheme.induct {P : Scheme → Prop}
@@ -597,9 +675,23 @@ theorem recurse_node (hsort : SortOk sort) (hchunk : ChunkOk chunk)
     simp [slabW] at this
     omega)]
 
+/-- Weight of a set of elements. -/
+def wt (ws p : List Nat) : Nat := (slabW ws p).sum
+
+/-- Balance of the leaves below a node with respect to the node's own weight:
+`|leaves · W_leaf − W_node| ≤ leaves · depth · wmax`. -/
+def Bal (wmax : Nat) (c : Scheme) (p : List Nat) (h : Hier) : Prop :=
+  ∀ l ∈ h.leaves,
+    -((c.leaves : Int) * c.depth * wmax) ≤ (c.leaves : Int) * wt ws l - wt ws p ∧
+    (c.leaves : Int) * wt ws l - wt ws p ≤ (c.leaves : Int) * c.depth * wmax
+
+/-- One level: the slab `p` handed to the child `c` against its share of `total`. -/
+def Lvl (den total wmax : Nat) (c : Scheme) (p : List Nat) : Prop :=
+  wt ws p * den < total * c.leaves + wmax * den ∧ total * c.leaves < wt ws p * den + wmax * den
+
 /-- The per-child facts collected by `recurse_spec`. -/
-def ChildOk (coord : Nat) (c : Scheme) (p : List Nat) (h : Hier) : Prop :=
-  h.elems.Perm p ∧ h.leaves.length = c.leaves ∧ h.Jagged key dim coord
+def ChildOk (wmax : Nat) (coord : Nat) (c : Scheme) (p : List Nat) (h : Hier) : Prop :=
+  h.elems.Perm p ∧ h.leaves.length = c.leaves ∧ h.Jagged key dim coord ∧ Bal ws wmax c p h
 
 theorem all₃_elems_perm {R : Scheme → List Nat → Hier → Prop} {cs subs hs}
     (hR : ∀ c p h, R c p h → h.elems.Perm p) (h : All₃ R cs subs hs) :
@@ -647,55 +739,390 @@ theorem all₃_pairwise {R : Scheme → List Nat → Hier → Prop} {cs subs hs}
     obtain ⟨_, _, p', hp', hr⟩ := all₃_mem hrest h' hh'
     exact hp.1 p' hp' x ((hR _ _ _ h1).mem_iff.1 hx) y ((hR _ _ _ hr).mem_iff.1 hy)
 
-/-- Totality and structure of the recursion on a well-formed scheme. -/
-theorem recurse_spec (hsort : SortOk sort) (hchunk : ChunkOk chunk) :
+theorem all₂_map {α β α' β'} {R : α' → β' → Prop} (f : α → α') (g : β → β') :
+    ∀ {as : List α} {bs : List β}, All₂ R (as.map f) (bs.map g) → All₂ (fun a b => R (f a) (g b)) as bs := by
+  intro as
+  induction as with
+  | nil =>
+    intro bs h
+    cases bs with
+    | nil => exact .nil
+    | cons b bs => cases h
+  | cons a as ih =>
+    intro bs h
+    cases bs with
+    | nil => cases h
+    | cons b bs =>
+      cases h with
+      | cons h1 h2 => exact .cons h1 (ih h2)
+
+theorem all₂_and {α β} {R S : α → β → Prop} {as : List α} {bs : List β}
+    (h1 : All₂ R as bs) (h2 : All₂ S as bs) : All₂ (fun a b => R a b ∧ S a b) as bs := by
+  induction h1 with
+  | nil => exact .nil
+  | cons r _ ih =>
+    cases h2 with
+    | cons s h2' => exact .cons ⟨r, s⟩ (ih h2')
+
+theorem mem_leavesL {l : List Nat} : ∀ {hs : List Hier}, l ∈ leavesL hs → ∃ h ∈ hs, l ∈ h.leaves := by
+  intro hs
+  induction hs with
+  | nil => simp [leavesL]
+  | cons h hs ih =>
+    intro hl
+    simp only [leavesL, List.mem_append] at hl
+    rcases hl with hl | hl
+    · exact ⟨h, by simp, hl⟩
+    · obtain ⟨h', hh', hl'⟩ := ih hl
+      exact ⟨h', by simp [hh'], hl'⟩
+
+theorem depth_le_depthMax {c : Scheme} : ∀ {cs : List Scheme}, c ∈ cs → c.depth ≤ depthMax cs := by
+  intro cs
+  induction cs with
+  | nil => simp
+  | cons c' cs ih =>
+    intro hc
+    simp only [depthMax]
+    rcases List.mem_cons.1 hc with rfl | h
+    · omega
+    · have := ih h; omega
+
+theorem wf_leaves_pos : ∀ s : Scheme, s.WF → 1 ≤ s.leaves := by
+  intro s hwf
+  match s, hwf with
+  | .mk 0 _ _ _, _ => simp [Scheme.leaves]
+  | .mk (_ + 1) _ _ none, hwf => simp [Scheme.WF] at hwf
+  | .mk (k + 1) mods den (some cs), hwf =>
+    obtain ⟨_, hmods, hden, hpos, _⟩ := hwf
+    simp only [Scheme.leaves, leavesSum_eq, ← hmods, ← hden]
+    omega
+
+theorem slabW_le (wmax : Nat) (hw : ∀ w ∈ ws, w ≤ wmax) (p : List Nat) : ∀ w ∈ slabW ws p, w ≤ wmax := by
+  intro w hw'
+  obtain ⟨i, _, rfl⟩ := List.mem_map.1 hw'
+  rw [List.getD_eq_getElem?_getD]
+  by_cases hi : i < ws.length
+  · simp only [List.getElem?_eq_getElem hi, Option.getD_some]
+    exact hw _ (List.getElem_mem hi)
+  · simp [List.getElem?_eq_none (Nat.le_of_not_lt hi)]
+
+/-- Totality, structure and balance of the recursion on a well-formed scheme. -/
+theorem recurse_spec (hsort : SortOk sort) (hchunk : ChunkOk chunk) (wmax : Nat)
+    (hw : ∀ w ∈ ws, w ≤ wmax) (hwmax : 0 < wmax) :
     ∀ s : Scheme, s.WF → ∀ coord perm, (∀ i ∈ perm, i < ws.length) →
-      ∃ h, recurse {} sort chunk dim key ws s coord perm = some h ∧ ChildOk dim key coord s perm h := by
+      ∃ h, recurse {} sort chunk dim key ws s coord perm = some h ∧
+        ChildOk dim key ws wmax coord s perm h := by
   intro s
   induction s using Scheme.induct with
   | h k mods den next ih =>
     intro hwf coord perm hp
     cases k with
     | zero =>
-      refine ⟨.leaf perm, by simp [recurse], ?_, ?_, ?_⟩
+      refine ⟨.leaf perm, by simp [recurse], ?_, ?_, ?_, ?_⟩
       · simp [Hier.elems, Hier.leaves]
       · simp [Hier.leaves, Scheme.leaves]
       · simp [Hier.Jagged]
+      · intro l hl
+        simp only [Hier.leaves, List.mem_singleton] at hl
+        subst hl
+        simp [Scheme.leaves, Scheme.depth]
     | succ k =>
       cases next with
       | none => simp [Scheme.WF] at hwf
       | some cs =>
-        obtain ⟨hlen, hmods, _, _, hwfl⟩ := hwf
+        obtain ⟨hlen, hmods, hden, hdpos, hwfl⟩ := hwf
         rw [recurse_node dim key ws hsort hchunk k mods den cs coord perm hlen hmods hp]
+        generalize hsp : sort (key coord) perm = sp
+        have hspp : sp.Perm perm := hsp ▸ hsort.perm _ _
         generalize hps : (cumul mods.dropLast 0).map (fun A =>
-            specIdx (slabW ws (sort (key coord) perm)).sum den A (slabW ws (sort (key coord) perm))) = ps
+            specIdx (slabW ws sp).sum den A (slabW ws sp)) = ps
         have hpslen : ps.length + 1 = cs.length := by
           rw [← hps, List.length_map, cumul_length, List.length_dropLast, hmods, List.length_map]
           omega
-        have hsub : ∀ p ∈ segs (sort (key coord) perm) 0 ps, ∀ i ∈ p, i < ws.length := by
+        have hsub : ∀ p ∈ segs sp 0 ps, ∀ i ∈ p, i < ws.length := by
           intro p hp' i hi
-          have : i ∈ (segs (sort (key coord) perm) 0 ps).flatten := List.mem_flatten.2 ⟨p, hp', hi⟩
+          have : i ∈ (segs sp 0 ps).flatten := List.mem_flatten.2 ⟨p, hp', hi⟩
           rw [segs_flatten] at this
-          exact hp i ((hsort.perm _ _).mem_iff.1 this)
+          exact hp i (hspp.mem_iff.1 this)
+        -- one level of balance
+        have hmne : mods ≠ [] := by
+          intro h; rw [h] at hmods
+          have := congrArg List.length hmods
+          simp at this; omega
+        have hlvl : All₂ (Lvl ws den (slabW ws sp).sum wmax) cs (segs sp 0 ps) := by
+          have := level_balance (slabW ws sp) den wmax (slabW_le ws wmax hw sp)
+            (Nat.mul_pos hwmax hdpos) mods 0 0 hmne (by omega) (Nat.zero_le _)
+            (by simp [pre]) (by simpa [pre] using Nat.mul_pos hwmax hdpos)
+          rw [List.drop_zero, hps, hmods] at this
+          have e : segs (slabW ws sp) 0 ps = (segs sp 0 ps).map (slabW ws) := by
+            rw [slabW, ← segs_map]; rfl
+          rw [e] at this
+          exact all₂_map (R := fun m seg => seg.sum * den < (slabW ws sp).sum * m + wmax * den ∧
+            (slabW ws sp).sum * m < seg.sum * den + wmax * den) Scheme.leaves (slabW ws) this
         obtain ⟨hs, hhs, hall⟩ := recurseList_spec (sort := sort) (chunk := chunk) dim key ws
-          (Pcp := fun _ p => ∀ i ∈ p, i < ws.length)
-          (Q := ChildOk dim key ((coord + 1) % dim)) ((coord + 1) % dim) cs
-          (segs (sort (key coord) perm) 0 ps)
-          (fun c hc p hcp => ih cs rfl c hc ((wfList_iff cs).1 hwfl c hc) _ p hcp)
-          (all₂_of_forall _ _ (by rw [segs_length]; omega) (fun _ _ p hp' => hsub p hp'))
+          (Pcp := fun c p => (∀ i ∈ p, i < ws.length) ∧ Lvl ws den (slabW ws sp).sum wmax c p)
+          (Q := ChildOk dim key ws wmax ((coord + 1) % dim)) ((coord + 1) % dim) cs
+          (segs sp 0 ps)
+          (fun c hc p hcp => ih cs rfl c hc ((wfList_iff cs).1 hwfl c hc) _ p hcp.1)
+          (all₂_and (all₂_of_forall _ _ (by rw [segs_length]; omega) (fun _ _ p hp' => hsub p hp')) hlvl)
         refine ⟨.node hs, by simp [hhs], ?_, ?_, ?_, ?_⟩
         · rw [elems_node]
           refine (all₃_elems_perm (fun _ _ _ hr => hr.2.1) hall).trans ?_
           rw [segs_flatten]
-          exact hsort.perm _ _
+          exact hspp
         · simp only [Hier.leaves, Scheme.leaves]
           exact all₃_leaves (fun _ _ _ hr => hr.2.2.1) hall
-        · refine all₃_pairwise (fun x y => key coord x ≤ key coord y) (fun _ _ _ hr => hr.2.1) hall ?_
+        · refine ⟨all₃_pairwise (fun x y => key coord x ≤ key coord y) (fun _ _ _ hr => hr.2.1) hall ?_,
+            all₃_jagged dim key _ (fun _ _ _ hr => hr.2.2.2.1) hall⟩
           have := hsort.sorted (key coord) perm
-          rw [← segs_flatten ps (sort (key coord) perm) 0, List.pairwise_flatten] at this
+          rw [hsp, ← segs_flatten ps sp 0, List.pairwise_flatten] at this
           exact this.2
-        · exact all₃_jagged dim key _ (fun _ _ _ hr => hr.2.2.2) hall
+        · -- balance
+          intro l hl
+          simp only [Hier.leaves] at hl
+          obtain ⟨h', hh', hl'⟩ := mem_leavesL hl
+          obtain ⟨c, hc, p, _, ⟨_, hlv⟩, _, _, _, hbal⟩ := all₃_mem hall h' hh'
+          obtain ⟨h3, h4⟩ := hbal l hl'
+          have hleaves : (Scheme.mk (k + 1) mods den (some cs)).leaves = den := by
+            simp only [Scheme.leaves, leavesSum_eq, ← hmods, ← hden]
+          have hdepth : (Scheme.mk (k + 1) mods den (some cs)).depth = 1 + depthMax cs := by
+            simp only [Scheme.depth]
+          have hwt : wt ws perm = (slabW ws sp).sum := by
+            simp only [wt, slabW]
+            exact ((hspp.map _).sum_nat).symm
+          rw [hleaves, hdepth, hwt]
+          have h1 : (den : Int) * wt ws p < ((slabW ws sp).sum : Int) * c.leaves + den * wmax := by
+            have := hlv.1
+            rw [Nat.mul_comm (wt ws p) den, Nat.mul_comm wmax den] at this
+            exact_mod_cast this
+          have h2 : ((slabW ws sp).sum : Int) * c.leaves < den * wt ws p + den * wmax := by
+            have := hlv.2
+            rw [Nat.mul_comm (wt ws p) den, Nat.mul_comm wmax den] at this
+            exact_mod_cast this
+          have ha : (1 : Int) ≤ c.leaves := by
+            have := wf_leaves_pos c ((wfList_iff cs).1 hwfl c hc); omega
+          have hdD : (c.depth : Int) + 1 ≤ ((1 + depthMax cs : Nat) : Int) := by
+            have := depth_le_depthMax hc; omega
+          exact balance_step den c.leaves c.depth _ (wt ws l) (wt ws p) _ wmax ha (by omega) hdD
+            (by omega) h1 h2 h3 h4
 
 end recursion
+
+/-! ## The leaf writes -/
+
+theorem setAll_getElem? (v : Nat) : ∀ (l : List Nat) (p : List Nat) (j : Nat),
+    (l.foldl (fun p i => p.set i v) p)[j]? = if j ∈ l ∧ j < p.length then some v else p[j]? := by
+  intro l
+  induction l with
+  | nil => simp
+  | cons i l ih =>
+    intro p j
+    simp only [List.foldl_cons, ih, List.length_set, List.mem_cons]
+    by_cases hji : j = i
+    · subst hji
+      by_cases hl : j < p.length
+      · simp [hl]
+      · simp [hl]
+    · have : (p.set i v)[j]? = p[j]? := by
+        rw [List.getElem?_set]; simp [Ne.symm hji]
+      simp [this, hji]
+
+theorem setAll_length (v : Nat) (l p : List Nat) : (l.foldl (fun p i => p.set i v) p).length = p.length := by
+  induction l generalizing p with
+  | nil => simp
+  | cons i l ih => simp [ih]
+
+/-- `assign` with the leaf numbering starting at `off`. -/
+def assignFrom (ren : Nat → Nat) (off : Nat) (leaves : List (List Nat)) (p : List Nat) : List Nat :=
+  (leaves.zipIdx off).foldl (fun p lk => lk.1.foldl (fun p i => p.set i (ren lk.2)) p) p
+
+theorem assignFrom_length (ren : Nat → Nat) : ∀ (leaves : List (List Nat)) (off : Nat) (p : List Nat),
+    (assignFrom ren off leaves p).length = p.length := by
+  intro leaves
+  induction leaves with
+  | nil => intro off p; simp [assignFrom]
+  | cons l ls ih =>
+    intro off p
+    have := ih (off + 1) (l.foldl (fun p i => p.set i (ren off)) p)
+    simp only [assignFrom, List.zipIdx_cons, List.foldl_cons] at this ⊢
+    rw [this, setAll_length]
+
+theorem assignFrom_not_mem (ren : Nat → Nat) : ∀ (leaves : List (List Nat)) (off : Nat) (p : List Nat) (j : Nat),
+    j ∉ leaves.flatten → (assignFrom ren off leaves p)[j]? = p[j]? := by
+  intro leaves
+  induction leaves with
+  | nil => intro off p j _; simp [assignFrom]
+  | cons l ls ih =>
+    intro off p j hj
+    simp only [List.flatten_cons, List.mem_append, not_or] at hj
+    have := ih (off + 1) (l.foldl (fun p i => p.set i (ren off)) p) j hj.2
+    simp only [assignFrom, List.zipIdx_cons, List.foldl_cons] at this ⊢
+    rw [this, setAll_getElem?]
+    simp [hj.1]
+
+theorem assignFrom_mem (ren : Nat → Nat) : ∀ (leaves : List (List Nat)) (off : Nat) (p : List Nat),
+    leaves.flatten.Nodup → (∀ j ∈ leaves.flatten, j < p.length) →
+    ∀ k (hk : k < leaves.length), ∀ j ∈ leaves[k], (assignFrom ren off leaves p)[j]? = some (ren (off + k)) := by
+  intro leaves
+  induction leaves with
+  | nil => intro off p _ _ k hk; simp at hk
+  | cons l ls ih =>
+    intro off p hnd hlt k hk j hj
+    simp only [List.flatten_cons, List.nodup_append] at hnd
+    have hstep : assignFrom ren off (l :: ls) p =
+        assignFrom ren (off + 1) ls (l.foldl (fun p i => p.set i (ren off)) p) := by
+      simp [assignFrom, List.zipIdx_cons]
+    rw [hstep]
+    cases k with
+    | zero =>
+      simp only [List.getElem_cons_zero] at hj
+      have hnot : j ∉ ls.flatten := fun h => (hnd.2.2 j hj j h) rfl
+      rw [assignFrom_not_mem ren ls _ _ j hnot, setAll_getElem?]
+      simp [hj, hlt j (by simp [hj])]
+    | succ k =>
+      simp only [List.getElem_cons_succ] at hj
+      have := ih (off + 1) (l.foldl (fun p i => p.set i (ren off)) p) hnd.2.1
+        (by
+          intro j' hj'
+          rw [setAll_length]
+          exact hlt j' (by simp [hj']))
+        k (by simpa using hk) j hj
+      rw [this]; congr 2; omega
+
+theorem assign_eq (ren : Nat → Nat) (leaves : List (List Nat)) (p : List Nat) :
+    assign ren leaves p = assignFrom ren 0 leaves p := rfl
+
+theorem slabW_range (ws : List Nat) : slabW ws (List.range ws.length) = ws := by
+  apply List.ext_getElem
+  · simp [slabW]
+  · intro i h1 h2
+    simp [slabW, List.getD_eq_getElem?_getD, List.getElem?_eq_getElem h2]
+
+theorem mem_le_sum : ∀ (l : List Nat) (w : Nat), w ∈ l → w ≤ l.sum := by
+  intro l
+  induction l with
+  | nil => simp
+  | cons x xs ih =>
+    intro w hw
+    rcases List.mem_cons.1 hw with rfl | h
+    · simp
+    · have := ih w h; simp; omega
+
+/-! ## Instances of the parameters (non-vacuity) -/
+
+theorem insKey_perm (k : Nat → Int) (x : Nat) : ∀ l, (insKey k x l).Perm (x :: l) := by
+  intro l
+  induction l with
+  | nil => simp [insKey]
+  | cons y ys ih =>
+    simp only [insKey]
+    split
+    · exact List.Perm.refl _
+    · exact (List.Perm.cons y ih).trans (List.Perm.swap x y ys)
+
+theorem insKey_sorted (k : Nat → Int) (x : Nat) : ∀ l, l.Pairwise (fun a b => k a ≤ k b) →
+    (insKey k x l).Pairwise (fun a b => k a ≤ k b) := by
+  intro l
+  induction l with
+  | nil => simp [insKey]
+  | cons y ys ih =>
+    intro h
+    simp only [insKey]
+    split
+    · next hlt =>
+      refine List.pairwise_cons.2 ⟨?_, h⟩
+      intro z hz
+      rcases List.mem_cons.1 hz with rfl | hz
+      · omega
+      · have := (List.pairwise_cons.1 h).1 z hz; omega
+    · next hge =>
+      refine List.pairwise_cons.2 ⟨?_, ih (List.pairwise_cons.1 h).2⟩
+      intro z hz
+      rcases List.mem_cons.1 ((insKey_perm k x ys).mem_iff.1 hz) with rfl | hz
+      · omega
+      · exact (List.pairwise_cons.1 h).1 z hz
+
+theorem isort_ok : SortOk isort where
+  perm := by
+    intro k l
+    induction l with
+    | nil => simp [isort]
+    | cons x xs ih => exact (insKey_perm k x _).trans (List.Perm.cons x ih)
+  sorted := by
+    intro k l
+    induction l with
+    | nil => simp [isort]
+    | cons x xs ih => exact insKey_sorted k x _ ih
+
+theorem irootFrom_ge (n m : Nat) : ∀ fuel cand, cand ≤ irootFrom n m fuel cand := by
+  intro fuel
+  induction fuel with
+  | zero => intro cand; simp [irootFrom]
+  | succ fuel ih =>
+    intro cand
+    simp only [irootFrom]
+    split
+    · exact Nat.le_refl _
+    · have := ih (cand + 1); omega
+
+theorem irootFrom_le (n m : Nat) (hnm : n ≤ n ^ m) : ∀ fuel cand, cand ≤ n → irootFrom n m fuel cand ≤ n := by
+  intro fuel
+  induction fuel with
+  | zero => intro cand h; simpa [irootFrom] using h
+  | succ fuel ih =>
+    intro cand h
+    simp only [irootFrom]
+    split
+    · exact h
+    · next hno =>
+      have : cand ≠ n := by intro he; subst he; exact hno hnm
+      exact ih (cand + 1) (by omega)
+
+theorem irootFrom_found (n m : Nat) (hnm : n ≤ n ^ m) : ∀ fuel cand, cand ≤ n → n < fuel + cand →
+    n ≤ (irootFrom n m fuel cand) ^ m := by
+  intro fuel
+  induction fuel with
+  | zero => intro cand h1 h2; omega
+  | succ fuel ih =>
+    intro cand h1 h2
+    simp only [irootFrom]
+    split
+    · next hyes => exact hyes
+    · next hno =>
+      have : cand ≠ n := by intro he; subst he; exact hno hnm
+      exact ih (cand + 1) (by omega) (by omega)
+
+/-- The exact integer root meets the hypotheses of the scheme theorems. -/
+theorem iroot_ok : RootOk iroot where
+  pos := by
+    intro n m hn
+    simp only [iroot]
+    split
+    · omega
+    · split
+      · split <;> simp [usizeMax]
+      · exact irootFrom_ge n m n 1
+  le := by
+    intro n m hn hm
+    have hnm : n ≤ n ^ m := Nat.le_self_pow (by omega) n
+    simp only [iroot, show n ≠ 0 by omega, show m ≠ 0 by omega, if_false]
+    exact irootFrom_le n m hnm n 1 hn
+  two := by
+    intro n m hn hm
+    simp only [iroot, show n ≠ 0 by omega, show m ≠ 0 by omega, if_false]
+    obtain ⟨f, hf⟩ : ∃ f, n = f + 1 := ⟨n - 1, by omega⟩
+    rw [hf]
+    simp only [irootFrom, Nat.one_pow]
+    rw [if_neg (by omega)]
+    exact irootFrom_ge _ m f 2
+  one := by
+    intro n hn
+    have hnm : n ≤ n ^ 1 := by simp
+    simp only [iroot, show n ≠ 0 by omega, show (1 : Nat) ≠ 0 by omega, if_false]
+    have h1 := irootFrom_le n 1 hnm n 1 hn
+    have h2 := irootFrom_found n 1 hnm n 1 hn (by omega)
+    simp only [Nat.pow_one] at h2
+    omega
+  zero := by decide
 
 end Coupe.MultiJagged
